@@ -3,6 +3,7 @@
 # name -> verify: .vc files proved in this unit; trusted: .vc files imported as contracts only (proved in their own unit)
 UNITS = {
     "prim": dict(verify=["common.vc"], trusted=[], spec=["wire.rs"]),
+    "topic": dict(verify=["topic.vc"], trusted=["common.vc"], spec=["wire.rs"]),
 }
 
 ASSUMPTIONS = {
